@@ -27,6 +27,36 @@ pub fn verif_range_raw_asc<T>(m: &Map<&'static [u8], T>, s: &Storage, start: Opt
         &&& r@.len() == ks.len()
         &&& forall|i: int| 0 <= i < ks.len() ==> (#[trigger] r@[i]) is Ok && r@[i]->Ok_0.0@ == ks[i] && r@[i]->Ok_0.1 == de::<T>(s.kv@[(m.ns as int, ks[i])])
     }) { unimplemented!() }
+/// `.range(store, None, None, Descending)[.skip(skip)].take(limit)`: the same keys from the far end
+pub open spec fn range_keys_desc(kv: KV, ns: int, skip: int, limit: int) -> Seq<Seq<u8>> {
+    let f = ns_keys(kv, ns).reverse();
+    let s = if skip >= f.len() { Seq::<Seq<u8>>::empty() } else if skip <= 0 { f } else { f.skip(skip) };
+    if s.len() <= limit { s } else if limit <= 0 { Seq::<Seq<u8>>::empty() } else { s.take(limit) }
+}
+/// D22 target (descending, unbounded): the items `MAP.range(store, None, None, Order::Descending)[.skip(n)].take(limit)` yields
+#[verifier::external_body]
+pub fn verif_range_raw_desc<T>(m: &Map<&'static [u8], T>, s: &Storage, skip: usize, limit: usize) -> (r: Vec<Result<(Vec<u8>, T), StdError>>)
+    ensures ({
+        let ks = range_keys_desc(s.kv@, m.ns as int, skip as int, limit as int);
+        &&& r@.len() == ks.len()
+        &&& forall|i: int| 0 <= i < ks.len() ==> (#[trigger] r@[i]) is Ok && r@[i]->Ok_0.0@ == ks[i] && r@[i]->Ok_0.1 == de::<T>(s.kv@[(m.ns as int, ks[i])])
+    }) { unimplemented!() }
+/// D23 targets: `MAP.range(store, None, None, Order::Descending).next()` / `..Ascending).next()`: the entry with the greatest / least raw key
+#[verifier::external_body]
+pub fn verif_range_last<T>(m: &Map<&'static [u8], T>, s: &Storage) -> (r: Option<Result<(Vec<u8>, T), StdError>>)
+    ensures ({
+        let ks = ns_keys(s.kv@, m.ns as int);
+        if ks.len() == 0 { r is None } else { r is Some && r->Some_0 is Ok && r->Some_0->Ok_0.0@ == ks.last() && r->Some_0->Ok_0.1 == de::<T>(s.kv@[(m.ns as int, ks.last())]) }
+    }) { unimplemented!() }
+#[verifier::external_body]
+pub fn verif_range_first<T>(m: &Map<&'static [u8], T>, s: &Storage) -> (r: Option<Result<(Vec<u8>, T), StdError>>)
+    ensures ({
+        let ks = ns_keys(s.kv@, m.ns as int);
+        if ks.len() == 0 { r is None } else { r is Some && r->Some_0 is Ok && r->Some_0->Ok_0.0@ == ks[0] && r->Some_0->Ok_0.1 == de::<T>(s.kv@[(m.ns as int, ks[0])]) }
+    }) { unimplemented!() }
+/// ASSUMED: the big-endian encoding of u64 preserves the order (byte-wise comparison of equal-length big-endian numbers)
+pub broadcast axiom fn ax_be_bytes_u64_order(a: u64, b: u64)
+    ensures #[trigger] lex_le(be_bytes_u64(a), be_bytes_u64(b)) == (a <= b);
 /// proved: filters whose predicates agree on the members are equal
 pub proof fn lemma_filter_ext<T>(l: Seq<T>, p: spec_fn(T) -> bool, q: spec_fn(T) -> bool)
     requires forall|i: int| 0 <= i < l.len() ==> p(#[trigger] l[i]) == q(l[i])
